@@ -150,6 +150,9 @@ class Book:
         got = wb.outcome(comp.evaluate, text)
         h, w = r2 - r1 + 1, c2 - c1 + 1
         self.ctx.count('path:' + tag)
+        if '!' not in text:
+            self.ctx.count('path:sheetless-' + tag)
+            tag = 'sheetless-' + tag
         if first:
             self.ctx.count('path:first_access_range')
         self.ctx.case(('path', self.shape, tag, text, first))
@@ -160,7 +163,7 @@ class Book:
             self.bad(f'{tag}-raises', f'evaluate({text!r}) raised {got[1]}',
                      {'kind': 'path', 'path': text, 'first': first})
             return
-        if tag == 'unbounded' and isinstance(got[1], tuple):
+        if tag.endswith('unbounded') and isinstance(got[1], tuple):
             # openpyxl creates cells on access, so an earlier evaluate of a rectangle reaching beyond the
             # used area makes the used area (and with it the clipped range) larger: extra blank
             # rows/columns are not a disagreement about any cell
@@ -222,11 +225,16 @@ class Book:
                         if c2 > mc:
                             continue
                         plans.append((sheet, f'{wb.quote_sheet(sheet)}!{form}', c1, 1, c2, mr, 'unbounded'))
+                        if sheet == sheets[0] and form != 'B:B':
+                            # the same on the active sheet, without naming it
+                            plans.append((sheet, form, c1, 1, c2, mr, 'unbounded'))
                     else:
                         r1, r2 = int(a), int(b)
                         if r2 > mr:
                             continue
                         plans.append((sheet, f'{wb.quote_sheet(sheet)}!{form}', 1, r1, mc, r2, 'unbounded'))
+                        if sheet == sheets[0] and form != '2:2':
+                            plans.append((sheet, form, 1, r1, mc, r2, 'unbounded'))
         return plans
 
     def paths(self, rng, n_rects):
@@ -595,7 +603,23 @@ def run(ctx):
         one_book(ctx, spec, meta, rng, config='xlsx-stale' if i % 5 == 0 else 'mem')
         if i % 7 == 0:
             late.append((spec, meta))
-    pristine_reference(ctx, late[-5:])
+    pristine_reference(ctx, late[-5:] + [(CANARY_SPEC, {'formulas': {}})])
+
+
+# cells whose value shows a setting of the thread or of the process that an earlier evaluation could have left
+# changed (decimal precision and rounding mode, locale, numpy's error state), first; then one call of a function
+# from each part of the library, which is what this process has done many times and the pristine one never
+CANARY_SPEC = {'sheets': [['Sheet1', {
+    'A1': '=CEILING(0.1+0.2,0.1)', 'A2': '=FLOOR(0.1+0.7,0.1)', 'A3': '=ROUND(2.5,0)', 'A4': '=ROUND(0.125,2)',
+    'A5': '=ROUND(1234567890123.4567,3)', 'A6': '=TEXT(2.5,"0")', 'A7': '=TEXT(0.125,"0.00")', 'A8': '=ROUND(-2.5,0)',
+    'A9': '=MOD(0.3,0.1)', 'A10': '=TEXT(1234567.891,"#,##0.00")', 'A11': '=1/3', 'A12': '=TRUNC(2.675*100)/100',
+    'A13': '=VALUE("1.5")+VALUE("1e3")', 'A14': '=0.1+0.2&""', 'A15': '=ROUNDUP(0.1+0.2,1)', 'A16': '=INT(-0.5)',
+    'B1': '=TEXT(1234.5678,"0.00")', 'B2': '=TEXT(0.285,"0%")', 'B3': '=TEXT(43831,"yyyy-mm-dd")',
+    'B4': '=DEC2BIN(5)&HEX2DEC("FF")', 'B5': '=YEARFRAC(DATE(2020,1,31),DATE(2021,3,1),1)',
+    'B6': '=SUMPRODUCT(C1:C3,D1:D3)', 'B7': '=VLOOKUP(2,C1:D3,2,FALSE)', 'B8': '=SUMIF(C1:C3,">1",D1:D3)',
+    'B9': '=IFERROR(1/0,"e")', 'B10': '=LEFT("abc",2)&MID("hello",2,3)', 'B11': '=SLOPE(D1:D3,C1:C3)',
+    'B12': '=POWER(2,0.5)', 'B13': '=CONCATENATE(0.00001,"x")', 'B14': '=ROUND(2.675,2)',
+    'C1': 1, 'C2': 2, 'C3': 3, 'D1': 2.5, 'D2': 4.5, 'D3': 7.5}]], 'names': {}, 'arrays': [], 'calc': None}
 
 
 def pristine_reference(ctx, books):
@@ -603,6 +627,7 @@ def pristine_reference(ctx, books):
     another workbook: state that outlives a workbook (a cache on a class, a module level dict) shows here"""
     if not books:
         return
+    wb.fresh_values(CANARY_SPEC)     # (so that this thread has done all of it before, whatever came earlier)
     mine = [wb.fresh_values(spec) for spec, _ in books]
     theirs = wb.pristine_outcomes([{'spec': spec} for spec, _ in books], ctx.tmpdir)
     for (spec, meta), got, want in zip(books, mine, theirs):
@@ -646,7 +671,7 @@ def replay(ctx, case):
         return
     path = str(case.get('path') or '')
     try:
-        sheet, ref = path.rsplit('!', 1)
+        sheet, ref = path.rsplit('!', 1) if '!' in path else (case['spec']['sheets'][0][0], path)
         a, b = ref.split(':')
         (c1, r1), (c2, r2) = wb.split_coord(a), wb.split_coord(b)
     except Exception:
